@@ -485,8 +485,8 @@ func TestVerifC12Resolution(t *testing.T) {
 			}
 
 		default:
-			c12CheckCommit(sc, conf, broadcast, obs, byPoint, other,
-				state, st, fail, &labels)
+			c12CheckCommit(sc, conf, broadcast, preHeight, obs,
+				byPoint, other, state, st, fail, &labels)
 		}
 
 		var smp any
@@ -518,8 +518,8 @@ func c12Describe(rs []ContractResolver) string {
 
 // c12CheckCommit is the per-HTLC reference for a confirmed valid commitment
 // C (ours, the peer's current, the peer's pending).
-func c12CheckCommit(sc *ccScenario, conf int, broadcast bool, obs *c12Obs,
-	byPoint map[wire.OutPoint][]ContractResolver, other map[string]int,
+func c12CheckCommit(sc *ccScenario, conf int, broadcast bool,
+	preHeight uint32, obs *c12Obs, byPoint map[wire.OutPoint][]ContractResolver, other map[string]int,
 	state ArbitratorState, st *vstats.Collector,
 	fail func(string, ...any), labels *[]string) {
 
@@ -623,7 +623,7 @@ func c12CheckCommit(sc *ccScenario, conf int, broadcast bool, obs *c12Obs,
 		case !x.Incoming && x.On[conf] && x.Dust[conf]:
 			*labels = append(*labels, "offered_dust")
 			c12ExactlyOnce(sc, x, "dust on the confirmed commitment",
-				preF, postF, broadcast, st, fail, labels)
+				preF, postF, broadcast, preHeight, st, fail, labels)
 
 		// Offered, not on the confirmed commitment but on another:
 		// failed back exactly once unless the preimage is known.
@@ -663,7 +663,7 @@ func c12CheckCommit(sc *ccScenario, conf int, broadcast bool, obs *c12Obs,
 				break
 			}
 			c12ExactlyOnce(sc, x, "only on a non-confirmed commitment",
-				preF, postF, broadcast, st, fail, labels)
+				preF, postF, broadcast, preHeight, st, fail, labels)
 
 		// Received dust: closed out (final outcome), no resolver.
 		case x.Incoming && x.On[conf] && x.Dust[conf]:
@@ -689,22 +689,47 @@ func c12CheckCommit(sc *ccScenario, conf int, broadcast bool, obs *c12Obs,
 	}
 }
 
+// c12FailedAtBroadcast reports whether lnd's own rule fails x back at the
+// moment we broadcast our commitment (StateDefault step on a chain or user
+// trigger, our commitment's view): dust on our commitment, or dangling
+// (not on ours), unambiguously dust on the peer's side, inside the broadcast
+// window and preimage unknown.
+func c12FailedAtBroadcast(sc *ccScenario, x *ccHTLC, preHeight uint32) bool {
+	if x.On[ccL] {
+		return x.Dust[ccL]
+	}
+	dustEverywhere := true
+	for _, s := range []int{ccR, ccP} {
+		if x.On[s] && !x.Dust[s] {
+			dustEverywhere = false
+		}
+	}
+	inWindow := preHeight+sc.DeltaOut >= x.Expiry &&
+		(x.Fwd || sc.graceOver())
+
+	return dustEverywhere && inWindow && !x.known()
+}
+
 // c12ExactlyOnce checks the exactly-once fail-back of an offered HTLC that
 // has no output on the confirmed commitment.
 func c12ExactlyOnce(sc *ccScenario, x *ccHTLC, what string, preF, postF int,
-	broadcast bool, st *vstats.Collector, fail func(string, ...any),
-	labels *[]string) {
+	broadcast bool, preHeight uint32, st *vstats.Collector,
+	fail func(string, ...any), labels *[]string) {
 
 	total := preF + postF
 	if total == 1 {
 		return
 	}
-	if total == 0 && broadcast {
-		// Candidate finding: after we broadcast our own commitment
+	if total == 0 && broadcast &&
+		!c12FailedAtBroadcast(sc, x, preHeight) {
+
+		// Known finding: after we broadcast our own commitment
 		// (chain or user trigger) the dust fail-backs of the
-		// commitment that eventually confirms are computed but
+		// commitment that eventually confirms are recomputed but
 		// never sent (StateContractClosed ignores
-		// HtlcFailDustAction).
+		// HtlcFailDustAction). Only HTLCs that were not in the dust
+		// set at broadcast time fall into this class; every other
+		// missing or duplicate fail-back is reported.
 		if ccKnown(c12KeyDustAfterBroadcast) {
 			st.Known(c12KeyDustAfterBroadcast)
 			st.Count("excluded_known", 1)
